@@ -40,7 +40,8 @@ CHECKS["C19"] = dict(
     technique="must-event analysis on normal and exceptional exits (event set on every exit, wait/cancel/wait order), call-graph reachability of handle releases, resolved receiver types for close() coverage",
     text="Decides the structural core of 'nothing left running': every awaited asyncio.Event is set on every exit of its setter (task bodies: "
          "also when any await raises), stop() orders wait-started / cancel / wait-exited, every stored task, timer or thread handle has a "
-         "cancel/join/await reachable from its owner's stop(), close() stops an object of every stoppable class and finishes its state update. "
+         "cancel/join/await reachable from its owner's stop(), close() stops an object of every stoppable class and finishes its state update; once closed the aggregated states latch on `closed` and stay silent; every data channel "
+         "container is drained; a receiver that was never started still ends its remote track. "
          "It does not decide bounded-time completion under every interleaving or the absence of events after close.",
     ref="DESIGN.md section 3 C19")
 
@@ -48,8 +49,9 @@ CHECKS["C17"] = dict(
     technique="qualifier (serial-number) analysis: seeded attribute table, propagation through assignments/containers/call graph, classification of every comparison, ordering call, additive arithmetic and truthiness test; finite evaluation of the helper moduli",
     text="Decides the serial-number discipline that origin-independence needs: no raw order comparison, numeric sort/min/max, unreduced "
          "addition/subtraction or truthiness test on any 16/32-bit wrapping counter (TSNs, stream and RTP sequence numbers, RTP timestamps, "
-         "RE-CONFIG sequence numbers), and that the blessed helpers use the right moduli on all boundary pairs. It does not decide the helper "
-         "algebra for all pairs nor end-to-end equality of behaviour under shifted origins.",
+         "RE-CONFIG sequence numbers), that the blessed helpers use the right moduli on all boundary pairs, and - by evaluating the receive-side state machines on the same "
+         "scenarios at small origins and just below each wrap - that SCTP reassembly, FORWARD-TSN handling, the jitter buffer, the NACK generator and the receiver statistics "
+         "behave identically after un-shifting. Origin-independence beyond the enumerated scenarios is not decided.",
     ref="DESIGN.md section 3 C17")
 
 CHECKS["C10"] = dict(
@@ -65,26 +67,27 @@ CHECKS["C13"] = dict(
     text="Decides: readyState only moves forward at every _setReadyState call site; DATA_CHANNEL_OPEN written and read agree for all ordering/reliability "
          "combinations and non-ASCII labels/protocols; bufferedAmount is raised and lowered by len() of the very bytes queued/sent and bufferedamountlow fires "
          "exactly on downward crossings; ids have role parity and step 2, a reset is only queued for a channel with an id, and association close closes every "
-         "channel unconditionally; a completed reset request is cleared before the reset queue is restarted. It does not decide behaviour under fault schedules or open/close races beyond the transition relation.",
+         "channel unconditionally; a completed reset request is cleared before the reset queue is restarted; channels in every container are closed with the association; 23 end-to-end lifecycle scenarios "
+         "between two abstract transports (settings classes, messages, close from either side, id reuse, simultaneous opens, negotiated pairs, close before ACK, overlapping closes). It does not decide behaviour under fault schedules or open/close races beyond the transition relation.",
     ref="DESIGN.md section 3 C13")
 CHECKS["C15"] = dict(
     technique="exception-escape analysis of RemoteBitrateEstimator.add with intervals, float bounds and class invariants; paired-update rule; must-event guard rule; grid evaluation of the clamp expressions",
     text="Decides: no division by zero, negative sqrt, bad index or unbounded REMB SSRC count can escape the estimator; _total changes only together with the "
-         "buckets; the SSRC bookkeeping keeps the newest and evicts the oldest; the latest measurement is recorded whenever one exists; update() returns the clamped value and the clamp / over-use cut respect the 1.5x+10kbit/s "
+         "buckets; the SSRC bookkeeping keeps the newest and evicts the oldest; the whole pipeline evaluated on packet histories gives identical estimates across the 24-bit send-time wrap; the latest measurement is recorded whenever one exists; update() returns the clamped value and the clamp / over-use cut respect the 1.5x+10kbit/s "
          "and 85 % bounds on a grid of values. Two numeric denominators are exempted with reasons. It does not decide the numeric behaviour of the filter.",
     ref="DESIGN.md section 3 C15")
 CHECKS["C16"] = dict(
     technique="finite-domain evaluation of descriptor writer/reader over the complete flag space and of the packetisers over boundary size classes; linear length forms for the STAP-A budget",
     text="Decides: VP8 descriptor __bytes__/parse agree for all 360 combinations of optional fields and PictureID widths; VP8 packetisation yields payloads <= 1300 "
          "with the S bit only on the first packet and bytes verbatim for boundary buffer lengths; FU-A fragments carry exactly one start/end marker and the original "
-         "header bits for all 256 header octets and stay <= 1300 bytes on the boundary size classes; single NAL packets of types 1-23 depacketise verbatim; the STAP-A size budget "
+         "header bits for all 256 header octets and stay <= 1300 bytes on the boundary size classes; single NAL packets of types 1-23 depacketise verbatim; the whole H.264 packetiser over NAL-size sequences around every budget boundary keeps payloads <= 1300 and round-trips; the STAP-A size budget "
          "is decremented by exactly the bytes appended. It does not decide the <= 1300 bound of STAP-A for all size sequences nor reconstruction for all inputs.",
     ref="DESIGN.md section 3 C16")
 CHECKS["C18"] = dict(
     technique="data-dependence and guard (must-event) rules, serial qualifier analysis, grid evaluation of fraction_lost against RFC 3550 A.3, interval analysis of the packed report fields",
     text="Decides: the reported highest sequence includes wrap cycles and the cycle counter only advances for in-order packets; timestamp differences are reduced "
          "modulo 2^32; fraction_lost equals the RFC formula on a grid incl. duplicates/late arrivals; packets_lost, highest_sequence, jitter and lsr provably fit "
-         "their RTCP fields; dlsr is 0 or the scaled delay and within 32 bits on a grid of delays. Numeric equality over histories is not decided.",
+         "their RTCP fields; dlsr is 0 or the scaled delay and within 32 bits on a grid of delays; StreamStatistics equals an RFC 3550 reference on enumerated packet sequences. Numeric equality over histories is not decided.",
     ref="DESIGN.md section 3 C18")
 
 CHECKS["C01"] = dict(
@@ -152,7 +155,7 @@ CHECKS["C02"] = dict(
          "whose _acked is False (so the cumulative-ack path undoes it), acks decrease under exactly `not _acked`, a T3 expiry leaves nothing counted; T3 is armed on "
          "every path of start/restart, after every data (re)transmission, cleared and followed by _transmit on expiry, cancelled only with nothing outstanding; every "
          "producer of the three queues starts its consumer on every exit, accepted SACKs reach flush and transmit; cwnd never drops below one MTU; the receive loop cannot be killed by a "
-         "repeated chunk (timer typestate) or a negative window (sign rule); wrap-safe sequence arithmetic; nothing complete stays queued for the enumerated arrival orders. It does not decide "
+         "repeated chunk (timer typestate) or a negative window (sign rule); wrap-safe sequence arithmetic; the receive state is only re-initialised under an association-state guard; nothing complete stays queued for the enumerated arrival orders. It does not decide "
          "delivery in bounded time or absence of stalls over all fault histories (abandoned fragments of partially reliable messages are outside the rules).",
     ref="DESIGN.md section 3 C02")
 
